@@ -13,7 +13,8 @@ The structure of the output is made explicit by `render : List Item → Bytes` (
 device names, captured device text) are clean when the embedded data is.  That is where the property is genuinely open:
 
 * known finding F16 — a `303` line of a temperature reply embeds the captured device text raw (`C15_stream_counterexample`);
-* the ranged strings come out of `hostlist_sort`, mirrored by `partial def`s that the logic cannot look into;
+* the ranged strings come out of `hostlist_sort` + `hostlist_ranged_string`, whose output alphabet is not characterised here
+  (the sort mirror is total and proved to permute the names, `Props/C14.lean`, but no lemma yet says its strings are clean);
 * the telemetry line passes through `String.replace` (substitution of the device name).
 
 So the preservation theorems carry the hypothesis "the data-carrying lines of this step are clean" and are named
@@ -79,8 +80,8 @@ example : ((cliPostPoll Ex.world 1 []).clients.map (·.toBuf)) = [bstr "001 2.4.
     grammatical stream stays grammatical.  (`pre` stands for the bytes written to the descriptor in earlier passes.)
 
     Full statement: the same without the hypothesis `DataClean dataCodesP items`.  The hypothesis is extra because the
-    texts of 304/306/307/209 lines are built from configured names by `hostlist_ranged_string`/`hostlist_sort`, which the
-    model mirrors with `partial def`s; it excludes configurations whose node, plug or device names contain CR or LF. -/
+    texts of 304/306/307/209 lines are built from configured names by `hostlist_ranged_string`/`hostlist_sort`, whose
+    output alphabet is not characterised here; it excludes configurations whose node, plug or device names contain CR or LF. -/
 theorem C15_request_preserves_stream_partial (pre : Bytes) (w : W) (c : Cli) (line : Bytes) (h : StreamOK (pre ++ outOf w c)) :
     (parseLine w c line).1.exited = true ∨
     (∃ items, outOf (parseLine w c line).1 (parseLine w c line).2 = outOf w c ++ render items ∧
